@@ -156,6 +156,54 @@ Definition apply_config (defaults : world) (c : config) : world :=
 Definition deny1 (name : string) : config := Cfg false [] [name] [].
 Definition override1 (name : string) (v : node) : config := Cfg false [] [] [(name, v)].
 
+(* ---- options (risor_options.go).  A Config is what a SEQUENCE of options leaves in its fields: every option is a
+   function on the Config and they are applied in the order given (NewConfig), then init runs.  globals, denylist and
+   overrides are Go maps: WithGlobal(s) and WithGlobalOverride keep the LAST value given for a key, WithoutGlobal and
+   WithoutGlobals(names...) ADD to the deny set whatever came before. *)
+Inductive opt :=
+| OptNoDefaults                            (* WithoutDefaultGlobals() *)
+| OptGlobal (x : string) (v : node)        (* WithGlobal(x, v) *)
+| OptGlobals (e : env)                     (* WithGlobals(map) *)
+| OptWithout (x : string)                  (* WithoutGlobal(x) *)
+| OptWithoutMany (xs : list string)        (* WithoutGlobals(xs...) *)
+| OptOverride (x : string) (v : node).     (* WithGlobalOverride(x, v) *)
+
+Definition deny_add (l : list string) (x : string) : list string :=
+  if existsb (String.eqb x) l then l else l ++ [x].
+Definition over_set (l : list (string * node)) (x : string) (v : node) : list (string * node) :=
+  filter (fun p => negb (String.eqb (fst p) x)) l ++ [(x, v)].
+
+Definition apply_opt (c : config) (o : opt) : config :=
+  match o with
+  | OptNoDefaults => Cfg true (c_extra c) (c_deny c) (c_over c)
+  | OptGlobal x v => Cfg (c_nodefaults c) (env_set (c_extra c) x v) (c_deny c) (c_over c)
+  | OptGlobals e => Cfg (c_nodefaults c) (fold_left (fun a p => env_set a (fst p) (snd p)) e (c_extra c)) (c_deny c) (c_over c)
+  | OptWithout x => Cfg (c_nodefaults c) (c_extra c) (deny_add (c_deny c) x) (c_over c)
+  | OptWithoutMany xs => Cfg (c_nodefaults c) (c_extra c) (fold_left deny_add xs (c_deny c)) (c_over c)
+  | OptOverride x v => Cfg (c_nodefaults c) (c_extra c) (c_deny c) (over_set (c_over c) x v)
+  end.
+
+Definition empty_config : config := Cfg false [] [] [].
+Definition config_of (opts : list opt) : config := fold_left apply_opt opts empty_config.
+
+(* the names an option list denies, and the names it overrides *)
+Definition opt_denies (o : opt) (x : string) : Prop :=
+  match o with OptWithout y => y = x | OptWithoutMany ys => In x ys | _ => False end.
+Definition denied_by (opts : list opt) (x : string) : Prop := exists o, In o opts /\ opt_denies o x.
+Definition overridden_by (opts : list opt) (x : string) : Prop := exists v, In (OptOverride x v) opts.
+
+(* ---- object.NewBuiltinsModule(name, contents), called by a host to put a module together out of objects it already
+   has: a new module object n whose stored attributes are the given objects; every *Builtin among them is re-parented
+   (its computed attribute __module__ yields n from then on).  A builtin is an object that has a computed __module__
+   attribute. *)
+Definition reparent (n : node) (bs : list node) (e : edge) : edge :=
+  if String.eqb (e_lbl e) "__module__" && negb (e_mem e) && existsb (Pos.eqb (e_src e)) bs
+  then E (e_src e) (e_lbl e) false n else e.
+Definition assemble (w : world) (n : node) (members : list (string * node)) : world :=
+  W (w_env w)
+    (map (reparent n (map snd members)) (w_heap w) ++ map (fun p => E n (fst p) true (snd p)) members)
+    (n :: w_mods w).
+
 (* ---- what a script can do: follow a name / an attribute chain *)
 Fixpoint walk (h : heap) (n : node) (path : list string) : option node :=
   match path with
@@ -214,6 +262,27 @@ Definition wf_world (w : world) : bool :=
   nodup_keys String.eqb (map fst (w_env w)) &&
   forallb (fun p => negb (has_dot (fst p))) (w_env w) &&
   forallb (fun e => negb (e_mem e) || negb (has_dot (e_lbl e)) && negb (String.eqb (e_lbl e) "__name__")) (w_heap w).
+
+(* ---- a restricted module assembled by the host from stored members of a global module x (those whose name
+   satisfies [keep]), installed (1) with WithGlobalOverride(x, n) and (2) under a new name next to WithoutGlobal(x):
+   the full module object must not be reachable in either configuration *)
+Definition stored_members (h : heap) (m : node) : list (string * node) :=
+  map (fun e => (e_lbl e, e_dst e)) (filter (fun e => Pos.eqb (e_src e) m && e_mem e) h).
+Definition restricted (w : world) (n m : node) (keep : string -> bool) : world :=
+  assemble w n (filter (fun p => keep (fst p)) (stored_members (w_heap w) m)).
+Definition beside (x : string) (n : node) : config := Cfg false [("safe_" ++ x, n)] [x] [].
+Definition check_assemble (w : world) (n : node) (keep : string -> bool) (x : string) : bool :=
+  match env_get (w_env w) x with
+  | None => false
+  | Some m =>
+      if is_module (w_mods w) m then
+        match world_reach (apply_config (restricted w n m keep) (override1 x n)),
+              world_reach (apply_config (restricted w n m keep) (beside x n)) with
+        | Some s1, Some s2 => negb (PS.mem m s1) && negb (PS.mem m s2) && PS.mem n s1 && PS.mem n s2
+        | _, _ => false
+        end
+      else true
+  end.
 
 (* ---- decision procedures used by the finite-domain theorems *)
 Definition check_deny (w : world) (name : string) : bool :=
